@@ -369,6 +369,7 @@ class C18(Check):
             # parse-mode streams use the contextual instance, which has its own long-lived PythonIndenter
             p = self.py_basic
             ind = self.py_ind
+            ind.__dict__.clear()    # (also attributes that some method other than __init__ may have added during an earlier run)
             ind.__init__()          # every run starts from a pristine object (runs must not depend on what the worker ran before)
             plain = self.py_plain
             names = dict(nl='_NEWLINE', ind='_INDENT', ded='_DEDENT', opens=tuple(PythonIndenter.OPEN_PAREN_types), closes=tuple(PythonIndenter.CLOSE_PAREN_types))
@@ -409,6 +410,7 @@ class C18(Check):
                 outcome, result = self._parse_outcome(pp, inp)
                 # the same parse by an instance whose Indenter has just been initialised: this stream alone
                 oracle, oind = (self.tree_oracle[plan['lexer']], self.tree_oracle_ind) if driver == 'lark' else (self.py_oracle, self.py_oracle_ind)
+                oind.__dict__.clear()
                 oind.__init__()
                 want_parse = self._parse_outcome(oracle, inp)
                 out.count('ending:parse/' + outcome)
